@@ -23,6 +23,8 @@
  *       results: Z:<n> | B:<hex> | N | U | LN:<hex>,<hex>,... | G:<hex>   ("-" = empty string)
  *       gline = ONE buffer_getline call on an iterator that lives as long as the sequence (zeroed at its start)
  *       first token: A:<capacity after buffer_alloc> or A:NULL
+ *   vec and buf answers end with the token J:<i> (the first operation during which a LISTED size was refused;
+ *   -1 = inside buffer_alloc) or J:- (no injected refusal happened)
  */
 #include <inttypes.h>
 #include <stdint.h>
@@ -49,12 +51,18 @@
 static size_t	ks_fail_sizes[64];
 static size_t	ks_nfail_sizes;
 static int	ks_oldsize_violation;
+/* index of the operation during which a LISTED size was refused for the first time (-2 = never, -1 = by
+ * buffer_alloc, before the first operation): from there on the sequence is under injected allocation failure */
+static long	ks_cur_op;
+static long	ks_first_injected;
 
 static void
 ks_parse_alloc(const char *spec)
 {
 	ks_nfail_sizes = 0;
 	ks_oldsize_violation = 0;
+	ks_cur_op = -1;
+	ks_first_injected = -2;
 	if (spec[0] != 's' || spec[1] != ':')
 		return;
 	spec += 2;
@@ -73,8 +81,11 @@ ks_size_fails(size_t sz)
 	if (sz > ((size_t)1 << 50))
 		return 1;
 	for (i = 0; i < ks_nfail_sizes; i++)
-		if (ks_fail_sizes[i] == sz)
+		if (ks_fail_sizes[i] == sz) {
+			if (ks_first_injected == -2)
+				ks_first_injected = ks_cur_op;
 			return 1;
+		}
 	return 0;
 }
 
@@ -244,6 +255,7 @@ puthex(const unsigned char *p, size_t n)
 	for (i = 0; i < nops; i++) {						\
 		const char *op = ops[i];					\
 		T *p;								\
+		ks_cur_op = (long)i;						\
 		putchar(' ');							\
 		if (is(op, "push")) {						\
 			p = VECTOR_ALLOC(v);					\
@@ -330,6 +342,7 @@ buf_seq(size_t init_size, char **ops, size_t nops)
 		unsigned char *arg;
 		size_t len;
 
+		ks_cur_op = (long)i;
 		putchar(' ');
 		if (is(op, "puts")) {
 			arg = arghex(op, &len);
@@ -428,6 +441,11 @@ main(void)
 				vec_seq((size_t)strtoull(toks[1], NULL, 10), toks + 4, ntoks - 4);
 			else
 				buf_seq((size_t)strtoull(toks[1], NULL, 10), toks + 4, ntoks - 4);
+			/* last token: the operation that first met an injected refusal */
+			if (ks_first_injected == -2)
+				printf(" J:-");
+			else
+				printf(" J:%ld", ks_first_injected);
 		}
 #ifdef KS_WITH_MAP
 		else if (ntoks >= 3 && strcmp(toks[0], "map") == 0)
